@@ -184,8 +184,12 @@ func c09Run(p c09Params) func() {
 		}
 		if p.spont {
 			mc.GoEnv("spont", func() {
-				for i := 0; i < 2; i++ {
-					mc.Sleep(H/2 + 11*ms)
+				// mid-interval, and 61 ms into the following heartbeat exchange (pending if unanswered)
+				for i, at := range []mc.Duration{H/2 + 11*ms, H + 61*ms, 2*H + 161*ms} {
+					if i >= 2 && p.horizonHB < 3 {
+						break
+					}
+					mc.Sleep(at - mc.Now())
 					switch mc.Choose(5, mc.Fault) {
 					case 1:
 						deliver(&knxnet.DiscReq{Channel: cur})
@@ -196,7 +200,6 @@ func c09Run(p c09Params) func() {
 					case 4:
 						deliver(&knxnet.DiscRes{Channel: cur + 50})
 					}
-					mc.Sleep(H - H/2 - 11*ms)
 				}
 			})
 		}
@@ -584,6 +587,7 @@ func c09Oracle(p c09Params) func(tr *mc.Trace) []h.Violation {
 		// ---- data frames, Sends, inbound ----
 		calls := map[int]mc.Duration{}
 		rets := map[int]mc.Duration{}
+		okSend := map[int]bool{}
 		inboundClosedAt := mc.Duration(-1)
 		rx := map[int]int{}
 		for _, e := range tr.Log {
@@ -595,6 +599,7 @@ func c09Oracle(p c09Params) func(tr *mc.Trace) []h.Violation {
 			case Ret:
 				if x.Call == "Send" {
 					rets[x.ID] = e.T
+					okSend[x.ID] = x.Err == ""
 				}
 			case Note:
 				if x == "inbound closed" {
@@ -655,8 +660,19 @@ func c09Oracle(p c09Params) func(tr *mc.Trace) []h.Violation {
 							}
 						} else if y.Channel != ep.ch {
 							bad("stale-channel", "%s at %v carries channel %d, the connection's channel is %d (%s)", fakesock.Describe(x.Svc), e.T, y.Channel, ep.ch, desc)
-						} else if !p.tcp && int(y.SeqNumber) != ep.outAcked {
-							bad("sequence-not-restarted", "%s at %v: %d requests were acknowledged since the connection on channel %d was established at %v, so it must carry %d (%s)", fakesock.Describe(x.Svc), e.T, ep.outAcked, ep.ch, ep.from, ep.outAcked, desc)
+						} else if !p.tcp {
+							// requests of this connection that were acknowledged before this Send began:
+							// Sends called after the connection was established that returned success
+							tcThis := calls[MsgID(y.Payload)]
+							n := 0
+							for sid, tc := range calls {
+								if tr, ok := rets[sid]; ok && okSend[sid] && tc > ep.from && tr <= tcThis && sid != MsgID(y.Payload) {
+									n++
+								}
+							}
+							if int(y.SeqNumber) != n%256 {
+								bad("sequence-not-restarted", "%s at %v: %d Sends begun on the connection established at %v (channel %d) had succeeded before this one was called, so it must carry %d (%s)", fakesock.Describe(x.Svc), e.T, n, ep.from, ep.ch, n%256, desc)
+							}
 						}
 					}
 				case *knxnet.TunnelRes:
